@@ -106,7 +106,7 @@ func genC14(seed uint64, r *Rng, idx, vecs int) *C14Case {
 	if gr.Chance(0.2) {
 		n = gr.Range(5, 6)
 	}
-	rels := []string{"a.html", "b.html", "d2/c.html", "../up.html", "d4/e.html", "f.html"}
+	rels := []string{"a.html", `b\nav.html`, "d2/c.html", "../up.html", "d4/e.html", `f\tab.html`} // two names contain a backslash (legal in file names; string literals have no escapes)
 	gr2 := gr.Fork(2)
 	for i := 0; i < n; i++ {
 		cs.Files = append(cs.Files, &C14File{Rel: rels[i]})
@@ -117,6 +117,9 @@ func genC14(seed uint64, r *Rng, idx, vecs int) *C14Case {
 		cs.Env.Vals = append(cs.Env.Vals, &LV{T: "str", S: f.Rel})
 		cs.Env.Names = append(cs.Env.Names, fmt.Sprintf("stem%d", i))
 		cs.Env.Vals = append(cs.Env.Vals, &LV{T: "str", S: strings.TrimSuffix(f.Rel, ".html")})
+		// the same name in a field promoted from an embedded struct (Person.Base.ID)
+		cs.Env.Names = append(cs.Env.Names, fmt.Sprintf("pg%d", i))
+		cs.Env.Vals = append(cs.Env.Vals, &LV{T: "page", S: f.Rel})
 		// the same name behind a pointer and behind a Drop that yields a Drop
 		cs.Env.Names = append(cs.Env.Names, fmt.Sprintf("incp%d", i))
 		cs.Env.Vals = append(cs.Env.Vals, &LV{T: "str", S: f.Rel, R: "ptr"})
@@ -131,7 +134,7 @@ func genC14(seed uint64, r *Rng, idx, vecs int) *C14Case {
 			quote("./" + f.Rel), quote("x/../" + f.Rel),
 			quote(stem) + ` | append: ".html"`, `'` + stem + `' | append: '.html'`, quote("zz"+f.Rel) + ` | remove: "zz"`,
 			quote("zz"+f.Rel) + ` | replace: "zz", ""`, quote(f.Rel) + ` | slice: 0, 99`,
-			fmt.Sprintf("incp%d", i), fmt.Sprintf("incd%d", i), quote("y//../" + f.Rel)}
+			fmt.Sprintf("incp%d", i), fmt.Sprintf("incd%d", i), quote("y//../" + f.Rel), fmt.Sprintf("pg%d.Sidebar", i)}
 	}
 	argsFor := func(i int) []string {
 		as := argsFor0(i)
